@@ -55,7 +55,7 @@ def run(ctx):
     ctx.clause = 'D2'
     cdb = ctx.func(B + '.collect_data_block')
     r, I = ctx.run(cdb)
-    sel = [e for e in I.events if e.kind == 'store' and e.data.get('name') == 'v' and e.func.short == cdb.short
+    sel = [e for e in I.events if e.kind == 'store' and e.data.get('target') == 'name' and e.func.short == cdb.short
            and e.data['value'].single_atom() is not None and e.data['value'].single_atom().kind == 'sub'
            and '.channelize' in pretty(e.data['value'].single_atom().args[0])[:40]]
     ctx.require(sel, 'collect_data_block: the coarse-channel selection of the channelizer output was not found')
@@ -72,11 +72,8 @@ def run(ctx):
     r, I = ctx.run(grp, no_inline=(RU + 'read_header',), args={'start_chan': ctx.spec(hfi, 'self.start_chan')})
     hdr = [e for e in I.events if e.kind == 'call' and e.data.get('name') == RU + 'read_header']
     ctx.require(hdr, 'get_raw_params no longer calls read_header')
-    hatom_key = None
-    for e in I.events:
-        if e.kind == 'store' and e.data.get('name') == 'header':
-            hatom_key = e.data['value'].key
-    ctx.require(hatom_key is not None, 'get_raw_params: header variable not found')
+    hatom_key = hdr[0].data['ret'].key if hdr[0].data.get('ret') is not None else None       # the parsed header, however it is named
+    ctx.require(hatom_key is not None, 'get_raw_params: the value returned by read_header was not found')
     written = {}
 
     def sub_header(a):
@@ -123,8 +120,10 @@ def run(ctx):
         ctx.formula('AGREE', f'quick-look reducer forwards {p} to the fine channeliser', wf, b.get(p, T.NONE), sym(p),
                     node=call[-1].node, construct=f'get_pfb_waterfall({p}=...)')
     # byte de-interleave of the reducer (8 bit, 2 pol)
-    rb = [e for e in I.events if e.kind == 'store' and e.data.get('name') == 'rawbuffer']
-    ctx.require(rb, 'get_waterfall_from_raw: rawbuffer not found')
+    rb = [e for e in I.events if e.kind == 'store' and e.data.get('target') == 'name' and e.func.short == wf.short
+          and e.data['value'].single_atom() is not None and e.data['value'].single_atom().kind == 'call'
+          and any(a.kind == 'call' and a.args[0] == 'frombuffer' for a in T.all_atoms(e.data['value']).values())]
+    ctx.require(rb, 'get_waterfall_from_raw: the raw byte buffer (np.frombuffer(...)) was not found')
     for pname, lo in (('pfb_voltages_x', 0), ('pfb_voltages_y', 2)):
         v = b.get(pname, T.NONE)
         want = ctx.spec(wf, f'(RB[:, {lo}::4] + RB[:, {lo + 1}::4] * 1j).T', env={'RB': rb[-1].data['value']})
@@ -142,7 +141,9 @@ def run(ctx):
 
     def accum(II):
         # the per-polarisation accumulation (inside a loop, or unrolled over the literal polarisation list)
-        es = [e for e in II.events if e.kind == 'store' and e.data.get('name') == 'XX_psd' and e.data.get('aug') == 'Add']
+        es = [e for e in II.events if e.kind == 'store' and e.data.get('target') == 'name' and e.data.get('aug') == 'Add'
+              and e.data.get('rhs') is not None and any(a.kind == 'call' and a.args[0] in ('fft', 'fftshift')
+                                                        for a in T.all_atoms(e.data['rhs']).values())]
         return es
     a, ar = accum(I), accum(IR)
     ctx.require(a and ar, 'get_pfb_waterfall: accumulation into XX_psd inside the polarisation loop not found')
@@ -156,8 +157,12 @@ def run(ctx):
                         x.data['rhs'], y.data['rhs'], node=x.node, construct=x.text() + f' [#{k} value]')
             ctx.formula('AGREE', f'accumulation #{k}: performed for the same polarisations as the reference', pw, x.cond(), y.cond(),
                         node=x.node, construct=x.text() + f' [#{k} guard]')
-    init = [e for e in I.events if e.kind == 'store' and e.data.get('name') == 'XX_psd' and e.data.get('aug') is None]
-    initr = [e for e in IR.events if e.kind == 'store' and e.data.get('name') == 'XX_psd' and e.data.get('aug') is None]
+    def zeros_init(II, acc):
+        nm = acc[0].data['name']
+        return [e for e in II.events if e.kind == 'store' and e.data.get('target') == 'name' and e.data.get('name') == nm
+                and e.data.get('aug') is None and e.seq < acc[0].seq]
+    init, initr = zeros_init(I, a), zeros_init(IR, ar)
+    ctx.require(init and initr, 'get_pfb_waterfall: the initialisation of the accumulator was not found')
     ctx.formula('AGREE', 'accumulator shape == (chan, time//F, F)', pw, init[0].data['value'], initr[0].data['value'],
                 node=init[0].node)
 
